@@ -619,7 +619,19 @@ def check(case, cc):
         with open(path_in, 'wb') as f:
             f.write(data)
         path_out = os.path.join(out_dir, file_name)
-        result, cap = convert(fmt, path_in, path_out, case)
+        # one case in four: the output is named the way a user in the output directory names it - a bare file name
+        bare = (len(data) + len(passes)) % 4 == 0
+        cc.cls('output-path-without-a-directory-part', bare)
+        if bare:
+            os.makedirs(out_dir)
+            old_cwd = os.getcwd()
+            os.chdir(out_dir)
+            try:
+                result, cap = convert(fmt, path_in, file_name, case)
+            finally:
+                os.chdir(old_cwd)
+        else:
+            result, cap = convert(fmt, path_in, path_out, case)
         produced = {}
         if os.path.isdir(out_dir):
             for nm in sorted(os.listdir(out_dir)):
@@ -1019,3 +1031,4 @@ def parts(tier):
 
 
 RULE += '  Added after the seeding rounds: LIS log passes without data records and NUL padded mnemonics; BIT requests without the padding of the source name (either reading accepted); RP66V1 input names with inner dots.'
+RULE += '  Round 16: in one case in four the output is named by a bare file name inside the output directory.'
